@@ -6,6 +6,8 @@
    (C11).  One action per handler of the code:
 
      Dial            sync_with_peer -> start_connect           (live.rs / state.rs)
+     Join / Leave    start_sync / leave: the document enters / leaves the sync set (live.rs)
+     QueueDownload / DownloadReady   the content-download bookkeeping running beside (live.rs)
      DeliverRequest  AcceptSyncRequest -> accept_request        (state.rs)
      HandleConnectDone  on_sync_via_connect_finished            (live.rs)
      HandleAcceptDone   on_sync_via_accept_finished             (live.rs)
@@ -20,6 +22,8 @@ CONSTANTS MaxDials,            \* bound on the number of dials
           KeepResyncOnAccept,  \* an accept that overrides a running connect keeps the resync flag (D10 when FALSE)
           SyncingChoices,      \* possible sets of nodes that have the document in their sync set
           DialReasons,         \* reasons the environment dials with
+          MaxLeaves,           \* bound on the number of times a node leaves the document (0: the sync set never changes)
+          JoinWaitsForQuiet,   \* a node re-joins only when none of its sessions is still in flight (assumption; FALSE shows why)
           Yielder              \* the node that gives up its own pending dial when both dial at once (the code: the greater
                                \* endpoint id = node 2; C11 only demands that exactly one of the two does)
 
@@ -29,19 +33,23 @@ Other(n) == 3 - n
 VARIABLES st,       \* st[n] \in {"Idle","Connect","Accept"}
           resync,   \* resync[n]: resync_requested
           dials,    \* sequence of dial records
-          syncing,  \* nodes that sync the document
+          syncing,  \* nodes that sync the document (start_sync / leave)
+          syncing0, \* history: the sync set at the start (for replay)
+          pend,     \* pend[n]: a content download of the document is queued at n (live.rs queued_hashes; survives leave)
+          leaves,   \* number of Leave steps so far
           owed,     \* history: a news report was refused at n since its slot became busy
           bad,      \* history: labels of violated action properties
           hist      \* history: the schedule (for replay on the real code); hidden by the VIEW
-vars == <<st, resync, dials, syncing, owed, bad, hist>>
-view == <<st, resync, dials, syncing, owed, bad>>
+vars == <<st, resync, dials, syncing, syncing0, pend, leaves, owed, bad, hist>>
+view == <<st, resync, dials, syncing, syncing0, pend, leaves, owed, bad>>
 
 nd == Len(dials)
 Ids == 1..nd
 NewDial(n, reason) == [from |-> n, reason |-> reason, cph |-> "Req", cres |-> "none", aph |-> "None", ares |-> "none"]
 
 Init == /\ st = [n \in Node |-> "Idle"] /\ resync = [n \in Node |-> FALSE]
-        /\ dials = <<>> /\ syncing \in SyncingChoices
+        /\ dials = <<>> /\ syncing \in SyncingChoices /\ syncing0 = syncing
+        /\ pend = [n \in Node |-> FALSE] /\ leaves = 0
         /\ owed = [n \in Node |-> FALSE] /\ bad = {} /\ hist = <<>>
 
 \* ---- state.rs ---------------------------------------------------------------
@@ -66,14 +74,14 @@ Dial(n, reason) ==
           /\ resync' = [resync EXCEPT ![n] = FALSE]
           /\ dials' = Append(dials, NewDial(n, reason))
           /\ owed' = [owed EXCEPT ![n] = FALSE]
-  /\ UNCHANGED <<syncing, bad>>
+  /\ UNCHANGED <<syncing, syncing0, pend, leaves, bad>>
 
 \* ---- network / tasks ----------------------------------------------------------
 LoseRequest(d) ==
   /\ dials[d].cph = "Req"
   /\ dials' = [dials EXCEPT ![d].cph = "Done", ![d].cres = "connfail"]
   /\ hist' = Append(hist, [a |-> "LoseRequest", n |-> 0, reason |-> "", d |-> d, res |-> ""])
-  /\ UNCHANGED <<st, resync, syncing, owed, bad>>
+  /\ UNCHANGED <<st, resync, syncing, syncing0, pend, leaves, owed, bad>>
 
 DeliverRequest(d) ==
   /\ dials[d].cph = "Req"
@@ -86,26 +94,26 @@ DeliverRequest(d) ==
              /\ resync' = [resync EXCEPT ![m] = IF KeepResyncOnAccept /\ st[m] = "Connect" THEN @ ELSE FALSE]
         ELSE /\ dials' = [dials EXCEPT ![d].cph = "Wait", ![d].cres = dec, ![d].aph = "Done", ![d].ares = dec]
              /\ UNCHANGED <<st, resync>>
-  /\ UNCHANGED <<syncing, owed, bad>>
+  /\ UNCHANGED <<syncing, syncing0, pend, leaves, owed, bad>>
 
 \* the abort reply reaches the dialer, or the connection dies first
 DeliverAbort(d, lost) ==
   /\ dials[d].cph = "Wait"
   /\ dials' = [dials EXCEPT ![d].cph = "Done", ![d].cres = IF lost THEN "err" ELSE @]
   /\ hist' = Append(hist, [a |-> "DeliverAbort", n |-> 0, reason |-> "", d |-> d, res |-> IF lost THEN "lost" ELSE "delivered"])
-  /\ UNCHANGED <<st, resync, syncing, owed, bad>>
+  /\ UNCHANGED <<st, resync, syncing, syncing0, pend, leaves, owed, bad>>
 
 EndDialer(d, res) ==
   /\ dials[d].cph = "Sess"
   /\ dials' = [dials EXCEPT ![d].cph = "Done", ![d].cres = res]
   /\ hist' = Append(hist, [a |-> "EndDialer", n |-> 0, reason |-> "", d |-> d, res |-> res])
-  /\ UNCHANGED <<st, resync, syncing, owed, bad>>
+  /\ UNCHANGED <<st, resync, syncing, syncing0, pend, leaves, owed, bad>>
 
 EndAcceptor(d, res) ==
   /\ dials[d].aph = "Sess"
   /\ dials' = [dials EXCEPT ![d].aph = "Done", ![d].ares = res]
   /\ hist' = Append(hist, [a |-> "EndAcceptor", n |-> 0, reason |-> "", d |-> d, res |-> res])
-  /\ UNCHANGED <<st, resync, syncing, owed, bad>>
+  /\ UNCHANGED <<st, resync, syncing, syncing0, pend, leaves, owed, bad>>
 
 \* ---- completion handlers (on_sync_finished -> state.finish -> resync) ------------
 Finish(n, dd) ==
@@ -136,7 +144,7 @@ HandleConnectDone(d) ==
           THEN Finish(n, dd)
           ELSE dials' = dd /\ UNCHANGED <<st, resync, owed, bad>>
      ELSE Finish(n, dd)
-  /\ UNCHANGED syncing
+  /\ UNCHANGED <<syncing, syncing0, pend, leaves>>
 
 HandleAcceptDone(d) ==
   /\ dials[d].aph = "Done"
@@ -146,9 +154,49 @@ HandleAcceptDone(d) ==
      IF dials[d].ares = "AlreadySyncing"
      THEN dials' = dd /\ UNCHANGED <<st, resync, owed, bad>>
      ELSE Finish(m, dd)
-  /\ UNCHANGED syncing
+  /\ UNCHANGED <<syncing, syncing0, pend, leaves>>
+
+\* ---- the sync set changes (start_sync / leave) and the download bookkeeping goes on beside it -------------------
+\* a dial or session of node n is still in flight or unhandled
+InFlight(n) == \E d \in Ids : \/ (dials[d].from = n /\ dials[d].cph # "Handled")
+                               \/ (dials[d].from = Other(n) /\ dials[d].aph \notin {"None", "Handled"})
+Env(act, n) == hist' = Append(hist, [a |-> act, n |-> n, reason |-> "", d |-> 0, res |-> ""])
+
+\* leave: the per-document state of the node is dropped, whatever it was; queued downloads stay queued
+Leave(n) ==
+  /\ n \in syncing /\ leaves < MaxLeaves
+  /\ syncing' = syncing \ {n} /\ leaves' = leaves + 1
+  /\ st' = [st EXCEPT ![n] = "Idle"] /\ resync' = [resync EXCEPT ![n] = FALSE] /\ owed' = [owed EXCEPT ![n] = FALSE]
+  /\ Env("Leave", n) /\ UNCHANGED <<dials, syncing0, pend, bad>>
+
+\* start_sync: a fresh per-document state; the peers remembered for the document are dialled at once (DirectJoin),
+\* so a node that synced with the other one before starts a dial right here
+Join(n, dialNow) ==
+  /\ n \notin syncing /\ leaves > 0
+  /\ JoinWaitsForQuiet => ~InFlight(n)
+  /\ syncing' = syncing \cup {n}
+  /\ hist' = Append(hist, [a |-> "Join", n |-> n, reason |-> "", d |-> 0, res |-> IF dialNow THEN "dial" ELSE ""])
+  /\ IF dialNow
+     THEN /\ nd < MaxDials
+          /\ st' = [st EXCEPT ![n] = "Connect"] /\ dials' = Append(dials, NewDial(n, "DirectJoin"))
+     ELSE UNCHANGED <<st, dials>>
+  /\ UNCHANGED <<resync, syncing0, pend, leaves, owed, bad>>
+
+\* a remote entry whose content is wanted arrives: a download is queued (on_replica_event -> start_download)
+QueueDownload(n) ==
+  /\ MaxLeaves > 0 /\ n \in syncing /\ ~pend[n]
+  /\ pend' = [pend EXCEPT ![n] = TRUE]
+  /\ Env("QueueDownload", n) /\ UNCHANGED <<st, resync, dials, syncing, syncing0, leaves, owed, bad>>
+
+\* the download task reports (on_download_ready): whatever the sync set is by now, it must not touch the coordination state
+DownloadReady(n, ok) ==
+  /\ pend[n]
+  /\ pend' = [pend EXCEPT ![n] = FALSE]
+  /\ hist' = Append(hist, [a |-> "DownloadReady", n |-> n, reason |-> "", d |-> 0, res |-> IF ok THEN "ok" ELSE "err"])
+  /\ UNCHANGED <<st, resync, dials, syncing, syncing0, leaves, owed, bad>>
 
 Next ==
+  \/ \E n \in Node : Leave(n) \/ (\E now \in BOOLEAN : Join(n, now)) \/ QueueDownload(n) \/ \E ok \in BOOLEAN : DownloadReady(n, ok)
   \/ \E n \in Node, r \in DialReasons : Dial(n, r)
   \/ \E d \in Ids : \/ LoseRequest(d) \/ DeliverRequest(d)
                     \/ \E lost \in BOOLEAN : DeliverAbort(d, lost)
